@@ -1582,6 +1582,14 @@ class DirectButler(Butler):  # numpydoc ignore=PR02
         # Do not need expanded dataset refs so can ignore the return value.
         self._ingest_file_datasets(datasets)
 
+        # Refuse before the Zip is transferred: rolling back a failed ingest
+        # removes the transferred Zip, which may be the artifact of datasets
+        # that are already stored.
+        if already_stored := [ref for ref, known in self._datastore.knows_these(refs).items() if known]:
+            raise ConflictingDefinitionError(
+                f"Datastore already contains one or more datasets: {already_stored[:5]}"
+            )
+
         try:
             self._datastore.ingest_zip(zip_path, transfer=transfer)
         except IntegrityError as e:
@@ -1690,6 +1698,15 @@ class DirectButler(Butler):  # numpydoc ignore=PR02
         _LOG.verbose("Ingesting %d file dataset%s.", len(datasets), "" if len(datasets) == 1 else "s")
 
         self._ingest_file_datasets(datasets)
+
+        # Refuse before any artifact is touched: a datastore ingest that fails
+        # rolls back by removing the files it transferred, which for a dataset
+        # that is already stored are the artifacts of that dataset.
+        refs = [ref for dataset in datasets for ref in dataset.refs]
+        if already_stored := [ref for ref, known in self._datastore.knows_these(refs).items() if known]:
+            raise ConflictingDefinitionError(
+                f"Datastore already contains one or more datasets: {already_stored[:5]}"
+            )
 
         # Bulk-insert everything into Datastore.
         # We do not know if any of the registry entries already existed
